@@ -98,6 +98,16 @@ func IsComplaint(line string) bool {
 	return complaintRe.MatchString(line)
 }
 
+// IsWarning: the line carries a warning-level header (and so is not an error-level diagnostic).
+func IsWarning(line string) bool {
+	for _, h := range []string{"w: ", "wrn: ", "warn: ", "warning: "} {
+		if strings.HasPrefix(strings.ToLower(line), h) {
+			return true
+		}
+	}
+	return false
+}
+
 func isHidden(line string) bool {
 	for _, h := range hiddenHeaders {
 		if strings.HasPrefix(line, h) {
